@@ -194,6 +194,7 @@ def _run(tier, seed, t0, on_accept=None):
         return True
 
     # ------------------------------------------------------------ generic part
+    rng.seed('%s/generic' % seed)      # every family has its own stream: adding inputs to one does not shift the others
     special = {'verit_th_resolution', 'verit_la_generic', 'verit_refl', 'verit_let', 'verit_bind', 'verit_sko_ex',
                'verit_sko_forall', 'verit_onepoint', 'verit_forall_inst', 'verit_subproof', 'verit_conj_pts',
                'verit_disj_pts', 'verit_imp_conj', 'verit_imp_disj'}
@@ -250,6 +251,7 @@ def _run(tier, seed, t0, on_accept=None):
                     try_rule(name, tuple(cl), list(prem), 'generic')
 
     # ------------------------------------------------------------ rewrite-style rules: one equation lhs = rhs
+    rng.seed('%s/rewrite-style' % seed)      # every family has its own stream: adding inputs to one does not shift the others
     T_, F_ = K.true, K.false
     i0, i1, i2, i3 = Int(0), Int(1), Int(2), Int(3)
     bool_lhs = [And(p, T_), And(T_, p, q), And(p, F_, q), And(p, p, q), And(p, Not(p)), And(p, q, Not(p)), And(p, q),
@@ -291,7 +293,10 @@ def _run(tier, seed, t0, on_accept=None):
         'verit_ite_intro', 'verit_eq_reflexive')]
     pairs = [(l, r_) for l in bool_lhs for r_ in bool_rhs + [l]] + [(l, r_) for l in int_lhs for r_ in int_rhs + [l]]
     if tier == 'quick':
-        pairs = rng.sample(pairs, 1200)
+        # always: every left side against true / false / itself / a numeral (what a simplification rule can conclude
+        # about a constant comparison or a collapsing connective); the rest sampled
+        core = [(l, r_) for (l, r_) in pairs if r_ in (T_, F_) or r_ == l or r_.is_number()]
+        pairs = core + rng.sample([pr_ for pr_ in pairs if pr_ not in core], 900)
     # sums / products of 2-5 factors (variables WITH multiplicity, numerals incl. 0 and 1) against the constant folded
     # in front of: the same factors reordered (valid), one occurrence dropped or duplicated, the constant perturbed
     def chain(op, l):
@@ -332,6 +337,7 @@ def _run(tier, seed, t0, on_accept=None):
                 try_rule(name, (Eq(r_, l),), [], 'rewrite')
 
     # ------------------------------------------------------------ resolution
+    rng.seed('%s/resolution' % seed)      # every family has its own stream: adding inputs to one does not shift the others
     def resolvent(cls, drop=None):
         """resolve a chain of clauses left to right on complementary literals (own implementation)"""
         cur = list(cls[0])
@@ -372,6 +378,13 @@ def _run(tier, seed, t0, on_accept=None):
             nl = l.arg if l.is_not() else Not(l)
             if nl not in cls[i + 1]:
                 cls[i + 1] = [t for t in cls[i + 1] if t != l] + [nl]
+            if rng.random() < 0.3:
+                # the pivot atom a second time in one of the two premises, at another negation depth
+                # (tautological premises as not_not / equiv_pos produce them): the extra literal must survive
+                j = rng.choice([i, i + 1])
+                extra = rng.choice([Not(l), Not(nl), Not(Not(l)), Not(Not(nl))])
+                if extra not in cls[j]:
+                    cls[j] = cls[j] + [extra]
         res = resolvent(cls)
         if res is None:
             continue
@@ -396,6 +409,7 @@ def _run(tier, seed, t0, on_accept=None):
                 try_rule('verit_th_resolution', (tuple(res), tuple(sz)), prevs, 'resolution')
 
     # ------------------------------------------------------------ equality chains
+    rng.seed('%s/equality' % seed)      # every family has its own stream: adding inputs to one does not shift the others
     terms = [a, b, c, d, f(a), f(b)]
     n_eq = 300 if tier == 'quick' else 4000
     for it in range(n_eq):
@@ -444,6 +458,7 @@ def _run(tier, seed, t0, on_accept=None):
         try_rule('verit_eq_reflexive', (Eq(s1, s2),), [], 'equality')
 
     # ------------------------------------------------------------ la_generic
+    rng.seed('%s/la_generic' % seed)      # every family has its own stream: adding inputs to one does not shift the others
     n_la = 300 if tier == 'quick' else 5000
     for it in range(n_la):
         T = rng.choice([IntType, RealType])
@@ -490,21 +505,33 @@ def _run(tier, seed, t0, on_accept=None):
                 pos[0] = (K.less if c0.is_less_eq() else K.less_eq)(T)(c0.arg, c0.arg1)
                 try_rule('verit_la_generic', tuple(pos) + ([num(n) for n in co],), [], 'la_generic')
 
+    rng.seed('%s/la-rounding' % seed)
     # two-literal clauses over ONE variable with coefficients > 1 and constants that are not multiples of them
     # (integer rounding of bounds), every sign / strictness / polarity, small coefficient lists
-    n_la2 = 500 if tier == 'quick' else 8000
+    # The FIRST literal runs through the whole grid (coefficient 1..3 x constant -7..7 x side x strictness x polarity,
+    # integers), completed at random (reps times); then purely random clauses as before.
+    import itertools as _it
+    grid = list(_it.product([1, 2, 3], range(-7, 8), [0, 1], [0, 1], [0, 1]))
+    reps = 3 if tier == 'quick' else 25
+    n_rand = 600 if tier == 'quick' else 6000
+    n_la2 = len(grid) * reps + n_rand
     for it in range(n_la2):
-        T = IntType if rng.random() < 0.8 else RealType
+        fixed = grid[it % len(grid)] if it < len(grid) * reps else None
+        T = IntType if (fixed is not None or rng.random() < 0.8) else RealType
         num = Int if T == IntType else Real
         u = Var('u', T)
         lits_ = []
-        for _ in range(2):
-            kco = rng.choice([1, 1, 2, 3])
+        for li in range(2):
+            if li == 0 and fixed is not None:
+                kco, cv, side, strict, neg = fixed
+            else:
+                kco, cv, side, strict, neg = (rng.choice([1, 1, 2, 3]), rng.randint(-7, 7), rng.random() < 0.5,
+                                              rng.random() < 0.5, rng.random() < 0.5)
             lhs = u if kco == 1 else K.times(T)(num(kco), u)
-            cst = num(rng.randint(-7, 7))
-            a_, b_ = (lhs, cst) if rng.random() < 0.5 else (cst, lhs)
-            atom = (K.less if rng.random() < 0.5 else K.less_eq)(T)(a_, b_)
-            lits_.append(Not(atom) if rng.random() < 0.5 else atom)
+            cst = num(cv)
+            a_, b_ = (lhs, cst) if side else (cst, lhs)
+            atom = (K.less if strict else K.less_eq)(T)(a_, b_)
+            lits_.append(Not(atom) if neg else atom)
         co = [num(rng.choice([1, 1, 2, 3])), num(rng.choice([1, 1, 2, 3]))]
         try_rule('verit_la_generic', tuple(lits_) + (co,), [], 'la_generic-rounding')
 
